@@ -118,14 +118,9 @@ def judge (h : List (Nat × POp)) (o : Obs) : Option String :=
     | some f => if o.displayed == f then none else some "forced-display"
     | none => if o.displayed == o.state then none else some "forced-display"
 
-/-- Root-cause tag of the input class on which the current code departs from the statement (used to key the known
-    finding; evaluated on the history *before* `op`).  The second class (`lose-while-only-stopping`) has been repaired: a
-    departure on a loss is reported as a plain violation. -/
-def causeTag (h : List (Nat × POp)) : POp → Option String
-  | .remove j =>
-    match (view j h).last with
-    | some (s, _) => if s.isStopped then none else some "remove-entry-not-stopped"
-    | none => none
+/-- Root-cause tags of the input classes on which the code used to depart from the statement (they keyed the known findings
+    `lose-while-only-stopping` and `remove-entry-not-stopped`, both repaired since): none is left, a departure is a plain violation. -/
+def causeTag (_h : List (Nat × POp)) : POp → Option String
   | _ => none
 
 end Supv.Spec.C11
